@@ -151,7 +151,8 @@ def finish(rep, pid, tier, mcs, cat_states, traces, extra_cov=None, assumptions=
             oracle += 1
             continue
         e = t['events'][v[0] - 1]
-        rep.reject(signature(t, v, pid), {'sig': t['sig'], 'source': t['meta']['src'], 'ignore': t['meta']['ignore'],
+        rep.reject(signature(t, v, pid), {'sig': t['sig'], 'ign': t['ign'], 'sid': t['meta']['sid'], 'iid': t['meta']['iid'],
+                                          'source': t['meta']['src'], 'ignore': t['meta']['ignore'],
                                           'keymap': t['km'], 'variant': t['meta']['variant'], 'mode': t['meta']['mode'],
                                           'event_index': v[0], 'clauses': v[1], 'event': e,
                                           'calls_before': [x['call'] for x in t['events'][:v[0]]][-40:]})
@@ -324,3 +325,22 @@ CHECKS = {'C09': check_C09, 'C10': check_C10, 'C11': check_C11, 'C17': check_C17
 
 def main(pid, tier):
     return CHECKS[pid](tier)
+
+
+def replay(pid, path):
+    """re-run the recorded group of calls (up to the rejected one) on the current tree and let TLC judge it again"""
+    case = json.load(open(path))['case']
+    if pid == 'C17' or 'ign' not in case:
+        raise common.MachineryError('replay of %s needs the worker sessions: run ./check %s instead' % (pid, pid))
+    klepto = common.import_klepto()
+    del kd.EVALS[:]
+    group = {'sid': case.get('sid', 0), 'iid': case.get('iid', 0), 'sig': case['sig'], 'ign': case['ign'],
+             'calls': list(case['calls_before'])}
+    t = kd.run_group(klepto, group, case['keymap'], case['mode'], case.get('variant'))
+    verdicts, _ = common.validate_traces('KeyTrace', [{k: t[k] for k in ('sig', 'ign', 'km', 'cached', 'events')}], [pid])
+    if verdicts[0] is None:
+        print('replay: accepted on the current tree')
+        return common.EXIT_OK
+    print('VIOLATION property=%s replay=%s' % (pid, path))
+    print('  clauses: %s at call %d' % (verdicts[0][1], verdicts[0][0]))
+    return common.EXIT_VIOLATION
